@@ -236,6 +236,28 @@ def install(E):
     def b_zip(*a):
         return E.mk_list([tuple(t) for t in zip(*[E.iterate(x) for x in a])])
 
+    @nat("map")
+    def b_map(f, *its):
+        seqs = [E.iterate(x) for x in its]
+        return E.mk_list([E.call(f, list(args), {}) for args in zip(*seqs)])
+
+    @nat("filter")
+    def b_filter(f, it):
+        out = []
+        for v in E.iterate(it):
+            keep = E.truth(v) if f is None else E.truth(E.call(f, [v], {}))
+            if E.decide(keep):
+                out.append(v)
+        return E.mk_list(out)
+
+    @nat("set")
+    def b_set(x=()):
+        return tuple(E.iterate(x))
+
+    @nat("frozenset")
+    def b_frozenset(x=()):
+        return tuple(E.iterate(x))
+
     @nat("reversed")
     def b_reversed(x):
         return E.mk_list(list(reversed(E.iterate(x))))
@@ -756,6 +778,33 @@ def install_methods(E):
             return False
         return E_.equal(Bytes(o.items[len(o.items) - n:], False), Bytes(suffix.items, False))
 
+    def m_b_join(E_, o, parts):
+        out = []
+        first = True
+        for p_ in E_.iterate(parts):
+            if not isinstance(p_, Bytes):
+                E_.throw("TypeError", "sequence item: expected a bytes-like object")
+            if not first:
+                out.extend(o.items)
+            out.extend(p_.items)
+            first = False
+        return E_.mk_bytes(out, o.mutable, o.kind if o.kind != "memoryview" else "bytes")
+
+    def m_b_replace(E_, o, old, new, count=-1):
+        if not (isinstance(old, Bytes) and isinstance(new, Bytes) and len(old.items) == 1 and len(new.items) == 1) or count != -1:
+            raise Unsupported("bytes.replace other than single byte for single byte")
+        a, b = old.items[0], new.items[0]
+        out = []
+        for x in o.items:
+            c = E_.equal(x, a)
+            if c is True:
+                out.append(b)
+            elif c is False:
+                out.append(x)
+            else:
+                out.append(mk_int(z3.If(c.e, zi(b), zi(x)), 8))
+        return E_.mk_bytes(out, o.mutable, o.kind if o.kind != "memoryview" else "bytes")
+
     def m_b_translate(E_, o, table, delete=None):
         if delete is not None or not isinstance(table, Bytes) or len(table.items) != 256:
             raise Unsupported("translate arguments")
@@ -773,7 +822,7 @@ def install_methods(E):
                      reverse=m_b_reverse, copy=m_b_copy, clear=m_b_clear, pop=m_b_pop, insert=m_b_insert,
                      count=m_b_count, tobytes=m_b_tobytes, hex=m_b_hex, rstrip=m_b_rstrip, lstrip=m_b_lstrip, strip=m_b_strip,
                      partition=m_b_partition, split=m_b_split, startswith=m_b_startswith, endswith=m_b_endswith,
-                     translate=m_b_translate).items():
+                     translate=m_b_translate, join=m_b_join, replace=m_b_replace).items():
         M[("bytes", k)] = f
 
     # ---- list
@@ -870,6 +919,18 @@ def install_methods(E):
                 if isinstance(r, list):
                     return E_.mk_list(r)
                 return r
+            if name == "replace" and isinstance(o, Str) and len(a) == 2 and all(isinstance(x, str) and len(x) == 1 for x in a):
+                old_cp, new_cp = ord(a[0]), ord(a[1])
+                out = []
+                for c in o.cps:
+                    t = E_.equal(c, old_cp)
+                    out.append(new_cp if t is True else c if t is False else mk_int(z3.If(t.e, z3.IntVal(new_cp), zi(c))))
+                return Str(out)
+            if name in ("find", "index", "count") and isinstance(o, Str) and len(a) == 1 and isinstance(a[0], str) and len(a[0]) == 1:
+                b_ = Bytes(list(o.cps), False)
+                needle = Bytes([ord(a[0])], False)
+                m_ = E_.methods[("bytes", name)]
+                return m_(E_, b_, needle)
             if name == "join" and isinstance(o, str):
                 parts = E_.iterate(a[0])
                 if all(isinstance(p, str) for p in parts):
@@ -981,6 +1042,72 @@ def install_stubs(E):
         return m
 
     S["math"] = mk_math
+
+    def mk_itertools(E_):
+        m = Module("itertools")
+        m.ns["__name__"] = "itertools"
+
+        def chain(*its):
+            out = []
+            for it in its:
+                out.extend(E_.iterate(it))
+            return E_.mk_list(out)
+
+        def islice(it, *a):
+            items = E_.iterate(it)
+            vals = [None if x is None else E_.concretize(x) for x in a]
+            return E_.mk_list(items[slice(*vals)])
+
+        def repeat(x, n):
+            return E_.mk_list([x] * E_.concretize(n))
+
+        m.ns["chain"] = Native(chain, "itertools.chain")
+        m.ns["islice"] = Native(islice, "itertools.islice")
+        m.ns["repeat"] = Native(repeat, "itertools.repeat")
+        return m
+
+    S["itertools"] = mk_itertools
+
+    def mk_functools(E_):
+        m = Module("functools")
+        m.ns["__name__"] = "functools"
+
+        def reduce(f, it, *init):
+            items = E_.iterate(it)
+            if init:
+                acc = init[0]
+            elif items:
+                acc = items.pop(0)
+            else:
+                E_.throw("TypeError", "reduce() of empty iterable with no initial value")
+            for v in items:
+                acc = E_.call(f, [acc, v], {})
+            return acc
+
+        def memo(fn):
+            """functools.cache / lru_cache: a faithful memo table for concrete hashable arguments"""
+            table = {}
+
+            def call(*a, **kw):
+                if kw or not all(isinstance(x, (int, str, bool, tuple)) or x is None for x in a):
+                    raise Unsupported("memoised function called with symbolic or unhashable arguments")
+                E_.commit()
+                if a not in table:
+                    table[a] = E_.call(fn, list(a), {})
+                return table[a]
+            return Native(call, "memoised")
+
+        def lru_cache(*a, **kw):
+            if len(a) == 1 and not kw and isinstance(a[0], (Func, Native)):
+                return memo(a[0])
+            return Native(lambda fn: memo(fn), "lru_cache()")
+
+        m.ns["reduce"] = Native(reduce, "functools.reduce")
+        m.ns["lru_cache"] = Native(lru_cache, "functools.lru_cache")
+        m.ns["cache"] = Native(lambda fn: memo(fn), "functools.cache")
+        return m
+
+    S["functools"] = mk_functools
 
 
 # ====================================================================================== harness API
